@@ -63,13 +63,20 @@ def harness_env():
     return e
 
 
+def harness_limits():
+    """a harness process gone wild (a library loop that logs without end) must not take the machine down: cap its
+    address space well above anything a sane run needs (a few hundred MiB)"""
+    import resource
+    resource.setrlimit(resource.RLIMIT_AS, (24 << 30, 24 << 30))
+
+
 def run_harness(argv, timeout):
     """run a harness binary in a session of its own (its reporting children find their report directory by
     session id)"""
     os.makedirs(os.path.join(WORK, "vr"), exist_ok=True)
     os.chmod(os.path.join(WORK, "vr"), 0o777)
     return subprocess.run(argv, stdin=subprocess.DEVNULL, stdout=subprocess.PIPE, stderr=subprocess.PIPE, text=True,
-                          timeout=timeout, env=harness_env(), start_new_session=True)
+                          timeout=timeout, env=harness_env(), start_new_session=True, preexec_fn=harness_limits)
 
 
 def env_offline():
